@@ -26,6 +26,8 @@ def make_case(rng, tier):
     t, fam, vals = C.mixed_tree(rng, tier)
     names = sorted(S.variables(t))
     pts = [G.rand_point(rng, names, vals) for _ in range(3)]
+    if rng.random() < 0.25:
+        pts += G.collision_twins(rng, names, vals)
     return {"kind": "eval", "family": fam, "spec": S.to_json(t), "points": [S.point_to_json(p) for p in pts],
             "mode": G.share(rng, t)}
 
